@@ -84,7 +84,7 @@ func build(c *Case, o bodyOpt) {
 	var stream []byte
 	var segs []Seg
 	switch {
-	case c.Shape == "upload":
+	case c.isUpload():
 		stream = c.Msgs[0]
 	case c.T == "http" && !c.clientStreams():
 		// one undelimited request message
@@ -169,7 +169,14 @@ func shapeKey(c *Case, ex expect, outcome string) string {
 	if c.TruncErr {
 		style = "abort"
 	}
-	return fmt.Sprintf("%s/%s/%s/%s/msgs=%d/%s/%s/%s/%s", c.Lane, c.T, c.codecName(), c.Shape, n, c.Sched, style, ex.class, outcome)
+	shape := c.Shape
+	if c.Echo {
+		shape += fmt.Sprintf("+echo-%s/%d", c.EchoMode, c.EchoEvery)
+		if c.Interfere {
+			shape += "+interfering-request"
+		}
+	}
+	return fmt.Sprintf("%s/%s/%s/%s/msgs=%d/%s/%s/%s/%s", c.Lane, c.T, c.codecName(), shape, n, c.Sched, style, ex.class, outcome)
 }
 
 // run executes one in-process case and records what was observed.
@@ -311,6 +318,7 @@ func RunC06(r *mon.Run) {
 	g.laneUploads(limits)
 	g.laneTruncation()
 	g.laneResponses()
+	g.laneInterleave()
 	g.laneReal()
 
 	r.Set("exhaustive_partition_bound_bytes", r.Pick(8, 12))
@@ -434,6 +442,57 @@ func (g *gen) laneSchedules() {
 				ex = 0
 			}
 			g.sweepSchedules(c, ex, samples)
+		}
+	}
+}
+
+// laneInterleave: the handler sends between receives (ping-pong echo with
+// replies longer / shorter than the request, or a reply after every second
+// message) while several request messages arrive in one read or in reads
+// that straddle message boundaries; optionally an unrelated request is
+// served on the same mux between a receive and the reply.
+func (g *gen) laneInterleave() {
+	r := g.r
+	exh := r.Pick(7, 10)
+	samples := r.Pick(2, 8)
+	seqs := [][]string{{"T", "T", "T"}, {"D5", "T", "D9", "E"}, {"X", "T", "X"}, {"D40", "D3", "D3", "D3"}, {"E", "E", "T", "E"}, {"T", "E"}}
+	if r.Thorough() {
+		seqs = append(seqs, []string{"D1", "D1", "D1", "D1", "D1", "D1"}, []string{"D130", "T", "T"}, []string{"E", "T"}, []string{"T", "D300", "X", "T"})
+	}
+	type mode struct {
+		echo      string
+		every     int
+		interfere bool
+	}
+	modes := []mode{{"long", 1, false}, {"long", 2, false}, {"short", 1, false}, {"", 1, true}, {"long", 1, true}}
+	for _, tc := range msgTransports {
+		for si, kinds := range seqs {
+			for mi, md := range modes {
+				if !r.Thorough() && md.interfere && (si+mi)%2 == 1 {
+					continue
+				}
+				c := &Case{T: tc.T, Codec: tc.Codec, CE: tc.CE, Shape: "bidi", Echo: true, EchoMode: md.echo, EchoEvery: md.every, Interfere: md.interfere, Trunc: -1}
+				c.Msgs = g.msgs(kinds, tc, 0)
+				build(c, bodyOpt{sep: []string{"", "\n"}[si%2]})
+				ex := exh
+				if tc.CE == "gzip" || mi > 0 && !r.Thorough() {
+					ex = 0
+				}
+				g.sweepSchedules(c, ex, samples)
+			}
+		}
+	}
+	// HttpBody chunks echoed as they arrive
+	for _, L := range []int{7, 64} {
+		for _, n := range []int{L + 1, 2 * L, 3*L + 1, 4 * L} {
+			for mi, md := range modes {
+				if !r.Thorough() && mi%2 == 1 {
+					continue
+				}
+				c := &Case{T: "http", Codec: "httpbody", Shape: "upbidi", Limit: L, Echo: true, EchoMode: md.echo, EchoEvery: md.every, Interfere: md.interfere, Trunc: -1, Msgs: [][]byte{prf(g.rng, n)}}
+				build(c, bodyOpt{})
+				g.sweepSchedules(c, 0, samples)
+			}
 		}
 	}
 }
